@@ -101,6 +101,7 @@ func (cl concurrentWriter) Write(al plugintypes.AuditLog) error {
 	}
 
 	printf("%s %s - - [%s]", al.Transaction().ClientIP(), al.Transaction().HostIP(), al.Transaction().Timestamp())
+	verifhook.Yield("auditlog.concurrent.index")
 	if al.Transaction().HasRequest() {
 		printf(
 			` "%s %s %s"`,
